@@ -76,8 +76,13 @@ def run(c):
         "sequential histories are observed at quiescence (bounded wait for the state the model predicts, then a stability window); "
         "ApplicationStopForce may report ErrApplicationStopping for an already stopped application (timeout 0): both results accepted",
         "the Terminate callback of a rolled-back start (timing dependent, Start never ran) is outside the comparison",
-        "small-step model: one application; Range/SendExit over the group is one step; Kill of a sleeping member runs "
+        "small-step model: one application; application.start is a thread program (CAS + initialisation one step, then one spawn "
+        "step = node.spawnMember (Init, group.Store, processes.Store) and one check step per member, roll-back, Start callback, "
+        "flag reset, final group check); Range/SendExit over the group is one step; Kill of a sleeping member runs "
         "application.terminate in the caller, modelled as an interleaving of a separate thread; the stopped channel is a flag "
-        "(theorems guarded by: start/unload begin only when no terminate/stop call is in flight, nothing else moves during start)",
-        "concurrent scenarios park one goroutine at a lib.VerifPoint of node/application.go and judge timing-independent end states",
+        "(theorems guarded by: start/unload begin only when no terminate/stop/start call is in flight and no member is alive; "
+        "loaded/stop theorems carry the ghost guard rbk = false: no killed member of a rolled-back start is left)",
+        "concurrent scenarios park one goroutine at a lib.VerifPoint of node/application.go (terminate, stop, and the spawn loop of "
+        "start with self-terminating members / a stop call meanwhile) and judge timing-independent end states; latecause scenarios "
+        "(sequential deaths with different reasons, later ones from inside a handler) are deterministic",
     ]
